@@ -138,6 +138,10 @@ func main() {
 	// ---- constants
 	extractConsts(&fc, repo)
 
+	// ---- cache write / load protocol: the calls each function of internal/cache makes, in source order
+	extractCalls(&fc, parseFile(filepath.Join(repo, "internal/cache/cache.go")), "cache", []string{"Write", "WriteE", "Load", "LoadE"})
+	extractCalls(&fc, parseFile(filepath.Join(repo, "pkg/cache/cache.go")), "pkgcache", []string{"Cache"})
+
 	if err := os.MkdirAll(out, 0o755); err != nil {
 		panic(err)
 	}
@@ -365,6 +369,37 @@ func extractShellGo(fc *facts, f *ast.File) {
 		}
 		return true
 	})
+}
+
+// extractCalls records, per named function, the package-qualified calls in its body (source order).
+func extractCalls(fc *facts, f *ast.File, pkg string, funcs []string) {
+	want := map[string]bool{}
+	for _, n := range funcs {
+		want[n] = true
+	}
+	for _, d := range f.Decls {
+		fn, ok := d.(*ast.FuncDecl)
+		if !ok || fn.Body == nil || !want[fn.Name.Name] || fn.Recv != nil {
+			continue
+		}
+		calls := []string{}
+		ast.Inspect(fn.Body, func(n ast.Node) bool {
+			if c, ok := n.(*ast.CallExpr); ok {
+				switch fun := c.Fun.(type) {
+				case *ast.SelectorExpr:
+					if id, ok := fun.X.(*ast.Ident); ok {
+						calls = append(calls, id.Name+"."+fun.Sel.Name)
+					} else {
+						calls = append(calls, "_."+fun.Sel.Name)
+					}
+				case *ast.Ident:
+					calls = append(calls, fun.Name)
+				}
+			}
+			return true
+		})
+		fc.StringLists[pkg+"_"+fn.Name.Name+"_calls"] = calls
+	}
 }
 
 func extractConsts(fc *facts, repo string) {
